@@ -97,24 +97,32 @@ def rule_r1(repo, tier):
             rr.fail('codec:unexpanded_descriptors:%s' % side, (efi if side == 'encoder' else dfi).where,
                     '%s side: descriptor %06d is packed/unpacked as %r (expected F=%d X=%d Y=%d <-> %d)' % (
                         side, did, got, did // 100000, did // 1000 % 100, did % 1000, did), witness={'id': did})
-    # the two process_section loops special-case the same parameter types and use the generic read/write otherwise
-    for cname, generic in (('Decoder', 'read'), ('Encoder', 'write')):
+    # the two process_section loops hand the same parameter kinds to the same routines (folded on a synthetic layout)
+    from sa.rules.c04 import SectionModel, SecInterp, PosIO, param, message
+    for cname in ('Decoder', 'Encoder'):
         fi = repo.own_method(cname, 'process_section')
-        types = set()
-        gen = 0
-        for n_ in ast.walk(fi.node):
-            if isinstance(n_, ast.Compare) and norm(n_.left) == 'parameter.type' and len(n_.ops) == 1 and isinstance(n_.ops[0], ast.Eq):
-                types.add(norm(n_.comparators[0]))
-            if isinstance(n_, ast.Call) and norm(n_.func) in ('bit_reader.read', 'bit_writer.write'):
-                gen += 1
-                a = [norm(x) for x in n_.args]
-                want = ['parameter.type', 'parameter.nbits'] if cname == 'Decoder' else ['parameter.value', 'parameter.type', 'parameter.nbits']
-                if a != want and not (cname == 'Decoder' and a[0] == 'parameter.type'):
-                    rr.fail('%s.process_section:generic-args' % cname, '%s:%d' % (fi.module.relpath, n_.lineno),
-                            'generic %s call passes %s (expected %s)' % (generic, a, want))
-        rr.instance('%s.process_section special-cases %s' % (cname, sorted(types)))
-        if types != {'PARAMETER_TYPE_UNEXPANDED_DESCRIPTORS', 'PARAMETER_TYPE_TEMPLATE_DATA'} or gen < 1:
-            rr.fail('%s.process_section:types' % cname, fi.where, 'special-cased parameter types are %s with %d generic calls' % (sorted(types), gen))
+        it = SecInterp(repo, cname, 16)
+        ps = [param('section_length', 24, value=0), param('flag', 1, 'bool', value=True), param('bits', 7, 'bin', value='0000000'),
+              param('unexpanded_descriptors', 0, 'unexpanded_descriptors', value=Sym('IDS')), param('template_data', 0, 'template_data', value=Sym('TD'))]
+        io = PosIO(0, [9, True, '0000000'])
+
+        def mk():
+            loc = {'self': Obj(cname, {'ignore_declared_length': True}), 'bufr_message': message(4), 'section': SectionModel([Obj(p.cls, dict(p.fields)) for p in ps], {'index': 3})}
+            loc['bit_reader' if cname == 'Decoder' else 'bit_writer'] = PosIO(0, [9, True, '0000000'])
+            return loc
+        res = it.run_function(fi, mk, self_class=cname)
+        rr.instance('%s.process_section: generic fields, descriptor list, data section dispatch' % cname)
+        for r in res:
+            seq = []
+            for e in r.events:
+                if e[0] in ('read', 'write'):
+                    seq.append((e[1], e[2]))
+                elif e[0] == 'data':
+                    seq.append(e[1].split('.')[-1])
+            want = [('uint', 24), ('bool', 1), ('bin', 7), 'process_unexpanded_descriptors', 'process_template_data']
+            if not r.ok or seq != want:
+                rr.fail('%s.process_section:dispatch' % cname, fi.where, 'a section with [24-bit uint, bool, 7-bit bin, descriptor list, data] is processed as %s (%s); expected %s' % (
+                    seq, r.describe(), want))
     rr.require_floor(13)
     return rr
 
